@@ -341,7 +341,50 @@ struct Failure {
     desc: Value,
 }
 
+// ---- per-case watchdog: a case that runs longer than the limit ends the process with exit 2 (inconclusive) and
+// leaves a replay file, so hangs are diagnosable instead of silently eating the time budget
+static WATCH: Mutex<Vec<(u64, Option<(Instant, String, Vec<u8>)>)>> = Mutex::new(Vec::new());
+static WATCH_NEXT: std::sync::atomic::AtomicU64 = std::sync::atomic::AtomicU64::new(1);
+thread_local! {
+    static WATCH_ID: u64 = WATCH_NEXT.fetch_add(1, Ordering::Relaxed);
+}
+fn watch_set(v: Option<(Instant, String, Vec<u8>)>) {
+    let id = WATCH_ID.with(|i| *i);
+    let mut w = WATCH.lock().unwrap();
+    if let Some(slot) = w.iter_mut().find(|s| s.0 == id) {
+        slot.1 = v;
+    } else {
+        w.push((id, v));
+    }
+}
+fn start_watchdog(property: &'static str) {
+    let limit: u64 = std::env::var("VERIF_CASE_TIMEOUT").ok().and_then(|s| s.parse().ok()).unwrap_or(180);
+    std::thread::spawn(move || loop {
+        std::thread::sleep(std::time::Duration::from_millis(500));
+        let hung = {
+            let w = WATCH.lock().unwrap();
+            w.iter().filter_map(|s| s.1.as_ref()).find(|x| x.0.elapsed().as_secs() >= limit).map(|x| (x.1.clone(), x.2.clone()))
+        };
+        if let Some((sub, tape)) = hung {
+            let dir = format!("{}/out/{}", verif_root(), property);
+            let _ = std::fs::create_dir_all(&dir);
+            let path = format!("{}/watchdog-{}-{:016x}.json", dir, sub, fnv(&[&tape]));
+            let v = json!({"property": property, "sub": sub, "tape": hex(&tape), "signature": "watchdog", "message": format!("case did not finish within {} s", limit)});
+            let _ = std::fs::write(&path, serde_json::to_string_pretty(&v).unwrap());
+            println!("INCONCLUSIVE property={} a case of sub-check {} did not finish within {} s (hang or pathological slowness); case saved to {}", property, sub, limit, path);
+            std::process::exit(2);
+        }
+    });
+}
+
 fn run_case(sub: &Sub, tape: Vec<u8>, tier: Tier, strict: bool, index: u64) -> (Case, CaseResult) {
+    watch_set(Some((Instant::now(), sub.name.to_string(), tape.clone())));
+    let r = run_case_inner(sub, tape, tier, strict, index);
+    watch_set(None);
+    r
+}
+
+fn run_case_inner(sub: &Sub, tape: Vec<u8>, tier: Tier, strict: bool, index: u64) -> (Case, CaseResult) {
     let mut c = Case::new(Tape::new(tape), tier, strict);
     c.index = index;
     if sub.exhaustive.is_some() {
@@ -405,6 +448,7 @@ impl Check {
 
     pub fn run_with(self, args: &Args) -> i32 {
         install_panic_hook();
+        start_watchdog(self.property);
         let t0 = Instant::now();
         let tier = args.tier;
         if let Some(p) = &args.replay {
